@@ -17,7 +17,8 @@ Switches, one per branch / shortcut visible in the code under test
     imported_symbols filter                             R_import_var_read, R_import_var_write, R_import_param,
                                                         R_call_function, R_kind_import
     `arg.type.parameter` filter                         R_local_param
-    pragma in()/out()/inout() overrides                 R_override_agree, R_override_out, R_override_widen
+    pragma in()/out()/inout() overrides                 R_override_agree, R_override_out, R_override_widen (scalars),
+                                                        R_override_array
     name(...) / default name + counter                  base region is unnamed, R_unnamed_second, R_two_regions
     declarations from `v.type.shape`                    R_shape_var_unused, R_lower_bound, R_array_2d, R_allocatable
     loop variable inside the region                     R_v_* (index dead after), R_loop_index_read_after
@@ -29,6 +30,7 @@ Switches, one per branch / shortcut visible in the code under test
     vars_to_resolve (`v.scope is procedure`)            I_host_scalar_write, I_fixed_array, I_dummy_derived,
                                                         I_host_derived_local, I_host_intent_in, I_host_intent_out
     arr_shapes appended                                 I_host_dummy_array, I_host_local_array, I_lower_bound
+    one dummy per *reference* found?                    I_array_two_subscripts (all other blocks use one subscript per array)
     parameters of the host                              I_local_param, I_import_param
     DeferredTypeSymbol / imports                        I_import_var_read, I_import_var_write
     dtype_imports_to_add / kind_imports_to_add          I_inner_local_derived, I_kind_import, I_host_type_in_module
@@ -44,7 +46,9 @@ Switches, one per branch / shortcut visible in the code under test
 Variants: outline_pragma_regions / extract_internal_procedures called directly (generated routines placed
 like ExtractTransformation does) and ExtractTransformation(extract_internals, outline_regions) in
 {(F,T),(T,F),(T,T)}, each at module level (apply to the Module) and at file level (apply to the Sourcefile
-holding a free-standing kernel).
+holding a free-standing kernel).  Region and module-structure blocks are combined under the outlining entry
+points, internal-procedure and module-structure blocks under the extraction entry points; under (T,T) every
+single block and every pair (region block, internal-procedure block) is generated.
 
 Oracle: (1) transformed sources build with gfortran -O0 -fcheck=bounds and print exactly the original
 output on every input of the grid (3 sizes x values chosen so that both branches of every condition are
@@ -59,7 +63,7 @@ Never generated: pragma overrides that contradict the region's real data flow.
 """
 import re
 
-from vf import xform
+from vf import xform, xfast
 from vf.explore import deviations
 
 PROPERTY = 'C33'
@@ -144,7 +148,7 @@ DECLS = '''    integer, intent(in) :: n
     real :: e_ro(4), e_wa(4), e_rw(4), e_wd(4), e_tm(4)
     type(st) :: d_ro, d_wa, d_rw, d_wd, d_tm
     integer :: i, j, k
-    real :: x1, x2, x3, x4, x5, x6, x7, x8
+    real :: x1, x2, x3, x4, x5, x6, x7, x8, x9, x10
     real :: hs, hw, hv(n)
     type(st) :: hd
     type(tt) :: tl
@@ -245,13 +249,14 @@ RBLOCKS.update({
     'R_cond_write': [('s', '    x2 = 0.75\n'), ('r', '', '', '    if (q(2) > 1.0) then\n      x2 = 2.0\n    end if\n', ['x2']),
                      ('s', '    r = r + x2\n')],
     'R_while_inside': [('r', '', '', '    k = 0\n    do while (k < 3)\n      k = k + 1\n      r = r + 0.5\n    end do\n', [])],
-    'R_call_module_proc': [('r', '', '', '    call addone(a)\n    call setval(x3, q(2))\n    call addtwo(r)\n', ['x3']),
+    'R_call_module_proc': [('r', '', '', '    call addone(q)\n    call setval(x3, q(2))\n    call addtwo(r)\n', ['x3']),
                            ('s', '    r = r + x3\n')],
     'R_call_external': [('r', '', '', '    call extset(x4, q(1))\n', ['x4']), ('s', '    r = r + x4\n')],
     'R_call_function': [('r', '', '', '    r = r + twice(q(2))\n', [])],
-    'R_override_agree': [('r', '', ' in(q) inout(r)', '    r = r + q(3)\n', [])],
+    'R_override_agree': [('s', '    x9 = 0.75\n'), ('r', '', ' in(x9) inout(r)', '    r = r + x9\n', [])],
+    'R_override_array': [('r', '', ' in(q)', '    r = r + q(3)\n', [])],
     'R_override_out': [('r', '', ' out(x5)', '    x5 = q(1)\n', ['x5']), ('s', '    r = r + x5\n')],
-    'R_override_widen': [('s', '    x6 = 0.5\n'), ('r', '', ' inout(x6,q)', '    x6 = q(2) + 1.0\n', ['x6']),
+    'R_override_widen': [('s', '    x6 = 0.5\n    x10 = 1.25\n'), ('r', '', ' inout(x6,x10)', '    x6 = x10 + 1.0\n', ['x6']),
                          ('s', '    r = r + x6\n')],
     'R_two_regions': [('r', '_1', '', '    x7 = q(1) + 1.0\n', ['x7']), ('r', '_2', '', '    r = r + x7 * 2.0\n', [])],
     'R_unnamed_second': [('r', None, '', '    x8 = q(4)\n', ['x8']), ('s', '    r = r + x8\n')],
@@ -291,9 +296,10 @@ IBLOCKS = {
     'I_host_dummy_array': dict(host='    call ia(1.5)\n', procs=_sub(
         'ia', 'z', ZIN + '      integer :: ii\n', '      do ii = 1, n\n        a(ii) = a(ii) + z\n      end do\n')),
     'I_host_local_array': dict(host='    hv(:) = 0.5\n    call ihv()\n    r = r + hv(2)\n',
-                               procs=_sub('ihv', '', '', '      hv(2) = hv(1) + 2.0\n')),
+                               procs=_sub('ihv', '', '', '      hv(2) = hv(2) + 2.0\n')),
     'I_fixed_array': dict(host='    call ifx(0.5)\n', procs=_sub('ifx', 'z', ZIN, '      q(4) = q(4) + z\n')),
-    'I_lower_bound': dict(host='    call ilb()\n', procs=_sub('ilb', '', '', '      c0(0) = c0(n) + 1.0\n')),
+    'I_array_two_subscripts': dict(host='    call i2s()\n', procs=_sub('i2s', '', '', '      q(3) = q(2) + 0.5\n')),
+    'I_lower_bound': dict(host='    call ilb()\n', procs=_sub('ilb', '', '', '      c0(0) = c0(0) + 1.0\n')),
     'I_local_param': dict(host='    call ilp(r)\n', procs=_sub('ilp', 'z', ZIO, '      z = z + real(lp)\n')),
     'I_import_param': dict(host='    call ikp(r)\n', procs=_sub('ikp', 'z', ZIO, '      z = z + real(kp)\n')),
     'I_import_var_read': dict(host='    call igr(r)\n', procs=_sub('igr', 'z', ZIO, '      z = z + gv\n')),
@@ -321,7 +327,7 @@ IBLOCKS = {
     'I_host_intent_in': dict(host='    call iin(r)\n', procs=_sub('iin', 'z', ZIO, '      z = z + real(n)\n')),
     'I_host_intent_out': dict(host='    call iout()\n', procs=_sub('iout', '', '', '      ko = n + 1\n')),
     'I_allocatable': dict(host='    allocate(al(n))\n    al(:) = 0.5\n    call ial()\n    r = r + al(1)\n    deallocate(al)\n',
-                          procs=_sub('ial', '', '', '      al(1) = al(2) + 1.0\n')),
+                          procs=_sub('ial', '', '', '      al(1) = al(1) + 1.0\n')),
     'I_kind_import': dict(host='    xk = 0.5_rk\n    call ixk()\n    r = r + real(xk)\n',
                           procs=_sub('ixk', '', '', '      xk = xk + 1.0_rk\n')),
     'I_host_type_in_module': dict(host='    call it2(r)\n', procs=_sub(
@@ -385,6 +391,8 @@ def make_cases(d):
             names = [k for k in menus[fam] if level == 'module' or not (k in MSWITCHES or IBLOCKS.get(k, {}).get('module_only'))]
             for dev in deviations({k: [True] for k in names}, d):
                 switches = [k for k in names if k in dev]
+                if fam == 'both' and len(switches) > 1 and not (any(k[0] == 'R' for k in switches) and any(k[0] == 'I' for k in switches)):
+                    continue        # same-kind pairs are covered by the outline / extract families
                 text, passback = build_kernel(level, switches)
                 if fam == 'extract':
                     passback = []
@@ -502,7 +510,7 @@ def passback_problems(case, transformed):
 
 
 def judge(case, base=None):
-    r = xform.run_case(case, apply, base=base, keep_files=True)
+    r = xfast.run_case(case, apply, base=base, keep_files=True)
     tr = r.pop('transformed', None)
     if tr and r['verdict'] not in ('HARNESS', 'refused', 'loki-exception'):
         try:
@@ -526,36 +534,27 @@ def worker(case):
 
 worker.base = None
 
-_ERRKIND = re.compile(r'^(?:Fortran runtime error|Error|Fatal Error): (.*)$', re.M)
-
-
-def errkinds(detail):
-    """gfortran error messages with every quoted name / number removed (what kind of error, not where)."""
-    out = set()
-    for m in _ERRKIND.finditer(detail or ''):
-        s = re.sub(r"'[^']*'|‘[^’]*’|\([0-9]+\)|[0-9]+", '_', m.group(1))
-        out.add(s.strip()[:80])
-    return out
-
-
 def sigfn(results_by_id):
-    def explains(single, r):
-        if not single or single['verdict'] != r['verdict']:
-            return False
-        if r['verdict'].startswith('xform-'):
-            # the simpler case explains this one only if this one shows no additional kind of compiler/run-time error
-            return errkinds(r['detail']) <= errkinds(single['detail']) or not errkinds(r['detail'])
-        return True
-
+    """A failing simpler case explains a case that contains it (same verdict): first the case without any switch
+    (same variant), then each single-switch case.  Under ExtractTransformation(True, True) a region block is explained
+    by the outlining-only variant and an internal-procedure block by the extraction-only variant of the same level, so
+    one defect has one signature per level."""
     def sig(case, r):
         xf = case['id'].split('|', 1)[1]
-        fam = case['family']
-        if explains(results_by_id.get(f'base|{xf}'), r):
-            return f'{r["verdict"]} block=base xform={fam}'
+        fam, level = case['family'].split('-')
+        cands = [('base', case['family'], f'base|{xf}')]
         for sw in case['switches']:
-            if explains(results_by_id.get(f'base+{sw}|{xf}'), r):
-                return f'{r["verdict"]} block={sw} xform={fam}'
-        return f'{r["verdict"]} blocks={"+".join(case["switches"]) or "base"} xform={fam}'
+            if fam == 'both' and sw[0] in 'RI':
+                ofam = 'outline' if sw[0] == 'R' else 'extract'
+                opts = dict(extract_internals=ofam == 'extract', outline_regions=ofam == 'outline', level=level)
+                oid = ','.join(f'{k}={v}' for k, v in sorted(opts.items()))
+                cands.append((sw, f'{ofam}-{level}', f'base+{sw}|trafo({oid})'))
+            cands.append((sw, case['family'], f'base+{sw}|{xf}'))
+        for label, family, cid in cands:
+            single = results_by_id.get(cid)
+            if single and single['verdict'] == r['verdict']:
+                return f'{r["verdict"]} block={label} xform={family}'
+        return f'{r["verdict"]} blocks={"+".join(case["switches"]) or "base"} xform={case["family"]}'
     return sig
 
 
